@@ -752,10 +752,7 @@ func execHistory(h *history, sec *vh.Section, section string, quiet bool) (rp *e
 	}
 	// saved positions: after the final quiescence the descriptor of every source the live pipe listens to stands at the
 	// end of what is stored — also when the last events were rejected by the filter (they are read once, not re-scanned)
-	posAtEnd := make([]bool, ns) // the saved position of the source stands at the end of the stored data (or cannot be known)
-	for i := range posAtEnd {
-		posAtEnd[i] = true
-	}
+	posAtEnd := make([]bool, ns) // the saved position of the source is known and stands at the end of the stored data
 	if r.pipeLive {
 		ds, _ := r.srv.Pipes.VerifC10Descs(h.Name)
 		for i, t := range h.Sources {
